@@ -1,9 +1,57 @@
 import Driver.Codec
-/-! Protocol ops of the `Parser` cluster: decode, call the model, print. -/
+import Driver.OpsDirective
+import XdocModel.Lexer
+import XdocModel.Parser
+/-! Protocol ops of the `Parser` cluster (lexer, labeller, grouping, chunk packaging). -/
 namespace Xdoc.Driver
-open Xdoc
+open Xdoc Py Parser
+
+def decFacts (f : String) : ChunkFacts :=
+  if f == "S" then .syntaxError else
+  match (f.drop 1).toString.splitOn ":" with
+  | [starts, e] => .parsed (decNatList starts) (e == "1")
+  | _ => .syntaxError
+
+def encMode (m : CompileMode) : String := m.name
+
+def encPiece : Piece → String
+  | .text s => "T:" ++ encStr s
+  | .part p =>
+    "P:" ++ ":".intercalate [
+      encStrList p.part.execLines,
+      (match p.part.wantLines with | none => "N" | some w => encStrList w),
+      (match p.part.origLines with | none => "N" | some w => encStrList w),
+      toString p.part.lineOffset,
+      encMode p.part.compileMode,
+      (match p.directives with | none => "N" | some ds => (encDirectives ds).replace ":" "/")]
+
+def failPointName : FailPoint → String
+  | .label => "_label_docsrc_lines" | .group => "_group_labeled_lines" | .package => "_package_groups"
 
 def opsParser : List String → Option String
+  | ["is_balanced", ls] => some (encBool (Lexer.isBalanced (decStrList ls)))
+  | ["lex_end", ls] =>
+    some (match (Lexer.lex (decStrList ls)).2 with
+      | .ok => "ok" | .eofString => "eofstring" | .eofStatement => "eofstatement" | .badDedent => "baddedent")
+  | ["extract_comments", ls] =>
+    some (match Lexer.extractComments (decStrList ls) with
+      | none => "raise" | some cs => encStrList cs)
+  | ["expandtabs", s] => some (encStr (expandTabs (decStr s)))
+  | ["min_indent", s] => some (toString (minIndentation (decStr s)))
+  | ["label", d] =>
+    some (match labelLines (prepareLines (decStr d)) with
+      | .error e => "error:" ++ e.name
+      | .ok ls => "ok\t" ++ "|".intercalate (ls.map fun (l, t) => l.name ++ ":" ++ encStr t))
+  | ["chunks", d] =>
+    some (match chunksOf (decStr d) with
+      | .error e => "error:" ++ e.name
+      | .ok cs => "ok\t" ++ "\t".intercalate ((hackedSources cs).map fun h =>
+          match h with | .ok s => "H" ++ encStr s | .error e => "E" ++ e.name))
+  | "parse" :: d :: facts =>
+    some (match parse (decStr d) (facts.map decFacts) with
+      | .error (fp, e) => "error:" ++ failPointName fp ++ ":" ++ e.name
+      | .ok ps => "ok\t" ++ "\t".intercalate (ps.map encPiece))
+  | ["has_semicolon", ls] => some (encBool (Lexer.hasSemicolon (decStrList ls)))
   | _ => none
 
 end Xdoc.Driver
